@@ -945,7 +945,9 @@ func (r *FnRun) execInstr(b *ssa.BasicBlock, idx int, ins ssa.Instruction, st *S
 		return false
 	case *ssa.Alloc:
 		elem := x.Type().Underlying().(*types.Pointer).Elem()
-		if !x.Heap {
+		if !x.Heap || closurePrivate(x) {
+			// a variable captured by closures that only read it is still private to this
+			// function: no callee can change it
 			st.cells[x] = r.zeroVal(elem)
 			st.regs[x] = &LocalPtr{A: x}
 		} else {
@@ -1331,13 +1333,18 @@ func (r *FnRun) stringCompare(st *State, op token.Token, a, b *StructVal) Val {
 }
 
 // strRank: uninterpreted order-embedding of string contents.
+// strRank: an order-embedding of the string's contents. Go strings are
+// immutable: the contents of the string value (data, len) do not depend on
+// what the heap looks like now, so the rank is taken over a fixed "string
+// memory" and not over the current byte memory (a call that havocs the heap
+// does not change what an existing string says).
 func strRank(m8 Term, s *StructVal) Term {
 	d, l := s.F[0].(Term), s.F[1].(Term)
-	name := "strrank"
+	name, imm := "strrank", Term{"M8imm", m8.Sort}
 	if d.Sort.K == KInt {
-		name = "strrank_i"
+		name, imm = "strrank_i", Term{"M8imm_i", m8.Sort}
 	}
-	return Term{app(name, m8, d, l), Sort{K: KInt, W: 64, Signed: true}}
+	return Term{app(name, imm, d, l), Sort{K: KInt, W: 64, Signed: true}}
 }
 
 func (r *FnRun) unop(st *State, x *ssa.UnOp) Val {
@@ -2207,4 +2214,57 @@ func (r *FnRun) infeasible(st *State) bool {
 		res = ReplaySolver.Solve(r.FnName+"/prune", q)
 	}
 	return res.Status == "unsat"
+}
+
+
+// closurePrivate: the heap cell is only loaded/stored here and captured by
+// closures that only load it.
+func closurePrivate(a *ssa.Alloc) bool {
+	refs := a.Referrers()
+	if refs == nil {
+		return false
+	}
+	captured := false
+	for _, ins := range *refs {
+		switch x := ins.(type) {
+		case *ssa.Store:
+			if x.Addr != ssa.Value(a) {
+				return false // the address itself is stored somewhere
+			}
+		case *ssa.UnOp:
+			if x.Op != token.MUL {
+				return false
+			}
+		case *ssa.DebugRef:
+		case *ssa.MakeClosure:
+			captured = true
+			fn, ok := x.Fn.(*ssa.Function)
+			if !ok {
+				return false
+			}
+			for i, b := range x.Bindings {
+				if b != ssa.Value(a) {
+					continue
+				}
+				frefs := fn.FreeVars[i].Referrers()
+				if frefs == nil {
+					return false
+				}
+				for _, fi := range *frefs {
+					switch y := fi.(type) {
+					case *ssa.UnOp:
+						if y.Op != token.MUL {
+							return false
+						}
+					case *ssa.DebugRef:
+					default:
+						return false
+					}
+				}
+			}
+		default:
+			return false
+		}
+	}
+	return captured
 }
